@@ -33,7 +33,7 @@ IU = 'utils.iter_utils'
 
 
 def run(ctx: Ctx):
-  for r in (r1, r2, r3, r4, r6, r10, r11, r12, r13):
+  for r in (r1, r2, r3, r4, r6, r10, r11, r12, r13, r14):
     ctx.guard(r)
   from mlmverif.props import c04
   from mlmverif.props._queue import model as qmodel
@@ -348,6 +348,38 @@ def r13(ctx: Ctx):
       ctx.fail(rule, fns[0], 'iter_utils keeps no module-level executor',
                f'module-level `{name} = {unparse(v)[:50]}`: a pool shared by all streams is never shut down', node=v)
   ctx.floor(rule, 2, n)
+
+
+def r14(ctx: Ctx):
+  rule = 'R-C13-14'
+  ctx.rule(rule, '"when the stream is exhausted, fails, or is stopped early, all helper threads finish and the pool is shut down" —'
+           ' also when the consumer is INTERRUPTED: the draw in MultiplexIterator.__next__ is covered, for every way an'
+           ' exception can leave it, by a handler that tears down (maybe_stop) before re-raising, or by a `finally`. `except'
+           ' Exception` does not catch KeyboardInterrupt / SystemExit / GeneratorExit: a Ctrl-C raised out of next() would'
+           ' leave the workers running until their bounded buffer is full and then blocked in put() for good')
+  fi = ctx.repo.func(IU, 'MultiplexIterator.__next__')
+  tries = [t for t in walk_no_nested(fi.node) if isinstance(t, ast.Try) and any(
+      isinstance(c, ast.Call) and unparse(c.func) == 'next' for b in t.body for c in ast.walk(b))]
+  if not tries:
+    raise AnalysisError(f'{rule}: the draw of MultiplexIterator.__next__ is no longer inside a try')
+  n = 0
+  for t in tries:
+    n += 1
+    stops = lambda body: any(isinstance(c, ast.Call) and unparse(c.func) == 'self.maybe_stop' for b in body for c in ast.walk(b))
+    covered = bool(t.finalbody) and stops(t.finalbody)
+    for h in t.handlers:
+      types = cfgm.handler_type_names(h)
+      if (h.type is None or any(x in ('BaseException', 'KeyboardInterrupt') for x in types)) and stops(h.body):
+        covered = True
+    what = 'MultiplexIterator.__next__: an interrupt raised out of the draw tears the stream down as well'
+    if covered:
+      ctx.ok(rule, fi, what, t)
+    else:
+      ctx.fail(rule, fi, what,
+               'no handler of the try around `next(self._iterator)` catches KeyboardInterrupt / BaseException (and there is no'
+               ' finally) to call maybe_stop(): an interrupted consumer leaves the queue running and the pool open — the worker'
+               ' threads fill the buffer and stay blocked in put()', node=t)
+  ctx.floor(rule, 1, n)
 
 
 def r11(ctx: Ctx):
@@ -719,6 +751,12 @@ from mlmverif.selfcheck import B, OK  # noqa: E402
 
 _F = 'utils/iter_utils.py'
 VARIANTS = [
+    B('interrupt-skips-the-teardown', 'utils/iter_utils.py',
+      '    except KeyboardInterrupt:\n      self.maybe_stop()\n      raise\n    except Exception:\n      logging.exception(\'chainable: %s\', f\'error iterating "{self.name}".\')',
+      '    except Exception:\n      logging.exception(\'chainable: %s\', f\'error iterating "{self.name}".\')', 'R-C13-14'),
+    OK('teardown-for-interrupt-and-exit', 'utils/iter_utils.py',
+       '    except KeyboardInterrupt:\n      self.maybe_stop()\n      raise\n    except Exception:',
+       '    except (KeyboardInterrupt, SystemExit):\n      self.maybe_stop()\n      raise\n    except Exception:'),
     B('default-pool-memoised', 'utils/iter_utils.py',
       'def _get_thread_pool(\n', '@functools.cache\ndef _get_thread_pool(\n', 'R-C13-13'),
     B('revert-failure-stops-linked', 'utils/iter_utils.py',
